@@ -50,6 +50,16 @@ def pool_rows(s, cfg, m, pname, seed, D, dom, specials, npool):
     if D > 1 and len(cells) > 1:
         r[-1] = cells[1][0]
     rows[1] = r
+    # bounded domains: the third row sits a hair inside an end-point (one row exactly ON an end-point and one just inside it is
+    # the combination a batch-wide min/max test gets wrong)
+    lo, hi = dom
+    if lo is not None and hi is not None and len(rows) >= 3:
+        rows[2] = rows[2].copy()
+        rows[2][0] = lo + 3e-7 * (hi - lo)
+        if D > 1:
+            rows[2][-1] = hi - 3e-7 * (hi - lo)
+        rows[1] = rows[1].copy()
+        rows[1][0] = lo
     if npool >= 4:
         r4 = base_row(D, dom, seed + 9)
         if len(cells) > 2:
